@@ -484,12 +484,19 @@ def _describe_named(body, op, depth=0):
             hit = [d for d in ds0 if d[2] == "assign" and d[3].get("k") == "agg" and d[3].get("vname") == proj[0]["n"] and len(d[3].get("ops", [])) == 1]
             rest = [d for d in ds0 if d not in hit]
             if len(hit) == 1 and rest and all((d[2] == "call" and d[3].get("always_break")) or (d[2] == "assign" and d[3].get("k") == "agg" and d[3].get("vname") in ("Break", "Err", "None")) for d in rest):
+                q0 = op_place(hit[0][3]["ops"][0])
+                if q0 is not None and proj[2:]:
+                    # keep resolving: the payload may itself be a tuple / struct built in one place
+                    return _describe_named(body, {"l": q0["l"], "p": q0["p"] + proj[2:]}, depth + 1)
                 base = _describe_named(body, hit[0][3]["ops"][0], depth + 1)
                 proj = proj[2:]
         # `.i` of a tuple built in one place (the `(&a, &b)` of assert_eq!, a tuple-valued `if`): its i-th operand
         if base is None and not nm and proj and isinstance(proj[0], dict) and "f" in proj[0] and "n" not in proj[0]:
             d1 = body.single_def(l)
             if d1 and d1[2] == "assign" and d1[3].get("k") == "agg" and d1[3].get("ak") == "tuple" and proj[0]["f"] < len(d1[3]["ops"]):
+                q1 = op_place(d1[3]["ops"][proj[0]["f"]])
+                if q1 is not None and proj[1:]:
+                    return _describe_named(body, {"l": q1["l"], "p": q1["p"] + proj[1:]}, depth + 1)
                 base = _describe_named(body, d1[3]["ops"][proj[0]["f"]], depth + 1)
                 proj = proj[1:]
         if base is None:
